@@ -223,7 +223,8 @@ fn stub_set_is_empty<T, A: core::alloc::Allocator + Clone>(_s: &alloc::collectio
 ///   unequal y-lengths => Err;  threshold 0 or fewer distinct x than threshold => Err;
 ///   otherwise interpolate receives exactly the first `threshold` distinct-x shares in
 ///   first-occurrence order; never panics.
-fn check_recover_selection<const N: usize>() {
+fn check_recover_selection<const N: usize>() { check_recover_selection_y::<N, true>() }
+fn check_recover_selection_y<const N: usize, const YSYM: bool>() {
   let t: u32 = kani::any();
   kani::assume(t as usize <= N + 1);
   let mut shares: Vec<Share> = Vec::with_capacity(N);
@@ -235,7 +236,7 @@ fn check_recover_selection<const N: usize>() {
     let h: bool = kani::any();
     kani::assume(a < 4);
     let x = Fp([a as u64, 0, h as u64]);
-    let l: bool = kani::any();
+    let l: bool = if YSYM { kani::any() } else { false };
     let y = if l { vec![Fp([1, 0, 0])] } else { Vec::new() };
     xs[i] = x.0;
     ls[i] = y.len();
@@ -296,6 +297,20 @@ fn k_recover_selection_2() {
 fn k_recover_selection_3() {
   check_recover_selection::<3>();
 }
+/// 4 shares: the smallest size at which a repeated share that is NOT adjacent to its original can sit
+/// inside the first `threshold` positions of a collection that still has `threshold` distinct points
+/// (a, b, a, c at threshold 3)
+#[kani::proof]
+#[kani::unwind(6)]
+#[kani::stub(interpolate, stub_interpolate)]
+#[kani::stub(<Fp as crate::ff::PrimeField>::to_repr, stub_to_repr)]
+#[kani::stub(alloc::collections::BTreeSet::insert, stub_set_insert)]
+#[kani::stub(alloc::collections::BTreeSet::len, stub_set_len)]
+#[kani::stub(alloc::collections::BTreeSet::is_empty, stub_set_is_empty)]
+#[kani::stub(<Fp as crate::ff::derive::subtle::ConstantTimeEq>::ct_eq, stub_fp_ct_eq)]
+fn k_recover_selection_4() {
+  check_recover_selection_y::<4, false>();
+}
 
 /// Vec<u8>::from(&Share) = x.to_repr() ++ y[0].to_repr() ++ ... (structure only; to_repr itself is
 /// T-field), for y of length 0..1
@@ -313,6 +328,52 @@ fn k_vec_from_share() {
   assert!(v.len() == if has_y { 48 } else { 24 });
   assert!(v[0..24] == stub_to_repr(&x).0);
   if has_y { assert!(v[24..48] == stub_to_repr(&y0).0); }
+}
+
+/// the element encoder `Vec<u8>::from(Fp)` is exactly the 24 bytes of to_repr (to_repr itself is T-field:
+/// replaced by the injective stand-in, so a truncated / reordered / padded copy shows up)
+#[kani::proof]
+#[kani::unwind(26)]
+#[kani::stub(<Fp as crate::ff::PrimeField>::to_repr, stub_to_repr)]
+fn k_vec_from_fp() {
+  let x = any_fp();
+  let v: Vec<u8> = Vec::from(x);
+  let e = stub_to_repr(&x).0;
+  assert!(v.len() == 24);
+  let mut i = 0;
+  while i < 24 {
+    assert!(v[i] == e[i]);
+    i += 1;
+  }
+}
+
+static mut EVAL_X: [u64; 3] = [0; 3];
+static mut EVAL_CALLS: usize = 0;
+fn stub_evaluate(_e: &Evaluator, x: Fp) -> Share {
+  unsafe { EVAL_X = x.0; EVAL_CALLS += 1; }
+  Share { x, y: Vec::new() }
+}
+/// `Evaluator::next` (ASSUMED in Verus): advances the point by exactly one (field addition, proved by
+/// k_fp_add), evaluates AT THE NEW POINT once, returns that share, leaves the polynomials alone.
+/// Loop-free over every canonical starting point.
+#[kani::proof]
+#[kani::stub(Evaluator::evaluate, stub_evaluate)]
+fn k_evaluator_next() {
+  let x0 = any_fp();
+  let mut ev = Evaluator { polys: Vec::new(), x: x0 };
+  unsafe { EVAL_CALLS = 0; }
+  let r = ev.next();
+  let want = ref_add(&x0.0, &Fp::ONE.0);
+  assert!(eq3(&ev.x.0, &want));
+  assert!(ev.polys.len() == 0);
+  unsafe {
+    assert!(EVAL_CALLS == 1);
+    assert!(eq3(&EVAL_X, &want));
+  }
+  match r {
+    Some(sh) => assert!(eq3(&sh.x.0, &want)),
+    None => assert!(false),
+  }
 }
 
 // ---------------------------------------------------------------------------------------------
